@@ -105,6 +105,17 @@ var Templates = []*Template{
 		Stmt:    func(r *world.PRNG, k int) string { return fmt.Sprintf("vfOld%d(%s)", k, GenExpr(r, 1)) },
 	},
 	{
+		// meant to be combined with others: its instance spans several lines and
+		// embeds a further call, so another change can match inside the elided part
+		Name:    "dots-multiline",
+		Patch:   func(k int) string { return fmt.Sprintf("@@\n@@\n-vfOld%d(...)\n+vfNew%d(...)\n", k, k) },
+		Trigger: func(k int) string { return fmt.Sprintf("vfOld%d", k) },
+		Stmt: func(r *world.PRNG, k int) string {
+			inner := fmt.Sprintf("vfOld%d(%s,\n%s)", k, GenExpr(r, 1), GenExpr(r, 1))
+			return fmt.Sprintf("vfOld%d(%s,\n%s,\n// a comment inside\n%s)", k, GenExpr(r, 1), inner, GenExpr(r, 0))
+		},
+	},
+	{
 		Name: "funcdecl-rename",
 		Patch: func(k int) string {
 			return fmt.Sprintf("@@\nvar T identifier\n@@\n-func vfOld%d(x T) {\n+func vfNew%d(x T) {\n   ...\n }\n", k, k)
